@@ -293,7 +293,14 @@ def removeTag (data : Bytes) : Bytes :=
 def dispatch (op : String) (args : List String) : Option String :=
   match op with
   | "msg.produce" => some (opProduce args)
-  | "msg.produce2" => some (opProduce args)   -- history freedom: a message object used before answers like a fresh one
+  | "msg.produce2" => some (opProduce args)
+  -- a decoded COSE_Sign signed again: the harness checks the C04 statement itself (what the signers were handed is the
+  -- structure of what goes on the wire); the model only says whether the message decodes
+  | "msg.resign" => some (match args with
+      | _ :: h :: _ => (match unhex h with
+          | some b => (match unmarshal .sign .raw b with | .ok _ => "ok" | .err => "err" | .unmodelled => "unmodelled")
+          | none => "bad-op")
+      | _ => "bad-op")   -- history freedom: a message object used before answers like a fresh one
   | "msg.consume" => some (opConsume args)
   | "msg.reencode" => some (opReencode args)
   -- a history of library-chosen nonces: consecutive whole blocks of the random stream (`fresh_draws_are_consecutive_blocks`),
